@@ -47,8 +47,10 @@ def _emit_fn(gen, root, fn, canary_false=False):
     """canary_false: emit a second copy of the function, renamed <name>__canary and never called, with `ensures false`
     appended (a callee with a false postcondition would make its callers vacuously true, so the original stays as it is)."""
     src = _source(root, fn.file)
-    d = src.find_fn(fn.scope, fn.name)
     fired = []
+    # opt-in (units ovl_*): `fn.locate = callable(src, fired) -> dict(sig, body, line, body_line)` takes the text of the item from
+    # somewhere other than a `fn` item (a named local closure lifted to a function, rule R26 in vx/ovlrules.py)
+    d = fn.locate(src, fired) if getattr(fn, 'locate', None) else src.find_fn(fn.scope, fn.name)
     r18 = 'R18' in getattr(fn, 'rules', ())
     sig = X.rewrite_sig(X.r18_sig(d['sig'], fired) if r18 else d['sig'], fired, fn.ret_name)
     rules_ = getattr(fn, 'rules', ())
@@ -81,6 +83,10 @@ def _emit_fn(gen, root, fn, canary_false=False):
             body = X.r24_explicit_else(body, fired)
         if 'R32' in rules_:
             body = X.r32_unwrap_or_else(body, fired)
+        if 'R33' in rules_:
+            body = X.r33_iter_map_collect(body, fired)
+        for hook in getattr(fn, 'body_hooks', ()):       # opt-in (units ovl_*): rewrite rules kept in vx/ovlrules.py, `hook(body, fired) -> body`; each logs what it did
+            body = hook(body, fired)
         if gtok and gtok.get('callees'):
             body = X.r23_ghost_token_calls(body, fired, gtok['callees'], gtok['arg'])
         if gtok and gtok.get('path_callees'):
@@ -525,6 +531,10 @@ def _describe_failure(gen, unit, d):
                 fn_key = o[0]
                 break
     fname = gen.fns[fn_key]['name'] if fn_key in gen.fns else '<prelude>'
+    if 'canary' in gtags and fn_key in gen.fns and str(fn_key).endswith('#canary'):
+        # the failing clause is the `false` of a canary copy; when its exit span is the whole body, tag comments of ghost text spliced
+        # into that body are inside the span: they do not name this obligation
+        tags, gtags = [], ['canary']
     props = []
     for t in tags:
         p = t.split('.')[0]
